@@ -39,6 +39,8 @@ def programs(tier):
     for pr in ('rng:E|E', 'rng:E,E|E', 'rng:E|C,X', 'rng:E,C,X|E', 'rng:C,X,E|E,C,X'):
         progs.append((pr, 2 if tier == 'quick' else 3, 200))
     progs.append(('rng:E|E|C,X', 1 if tier == 'quick' else 2, 300))
+    # the second user of mtCallOnce inside the library: the once-guarded frequency calibration of tm.c (reached from rngESRead("timer"))
+    progs += [('tm:F|F', 2, 200), ('tm:F,F|F', 2 if tier == 'thorough' else 1, 200), ('tm:F|F|F', 1, 300)]
     # requests of different lengths on the shared generator: a request that is not a multiple of the 32-octet block leaves a reserve, the
     # next requests are shorter than / equal to / longer than that reserve (oracle: no 8 octets of output handed out twice)
     for pr in ('rng:C,R24,R40,R8,X', 'rng:C,R24,R8,X|C,R40,X', 'rng:C,R7,R57,X|C,R16,X', 'rng:C,S24,X|C,R40,R8,X', 'rng:C,R24,X|C,R56,X|C,R8,X'):
@@ -55,10 +57,10 @@ def programs(tier):
     return progs
 
 FREE = {'quick': [('once:16', 25), ('once:2', 25), ('atomic*16:I,D,W1000', 25), ('rng*16:C,R32,S7,K,V,X', 25),
-                  ('rng:C,R32,X|V,V,V|C,X,C,X', 25), ('rng*2:C,S32,X', 25), ('rng*8:E,C,R32,X', 25)],
+                  ('rng:C,R32,X|V,V,V|C,X,C,X', 25), ('rng*2:C,S32,X', 25), ('rng*8:E,C,R32,X', 25), ('tm*8:F', 5)],
         'thorough': [('once:16', 200), ('once:2', 200), ('once:5', 200), ('atomic*16:I,D,W1000', 200), ('atomic*3:I,I,D', 200),
                      ('rng*16:C,R32,S7,K,V,X', 200), ('rng*8:C,R32,X,C,K,X', 200), ('rng:C,R32,X|V,V,V|C,X,C,X', 200),
-                     ('rng*2:C,S32,X', 200), ('rng*3:V,C,R7,X', 200), ('rng*8:E,C,R32,X', 200), ('rng*16:E', 200), ('rng:V|C,X', 300), ('rng*4:c,R32,X', 200)]}
+                     ('rng*2:C,S32,X', 200), ('rng*3:V,C,R7,X', 200), ('rng*8:E,C,R32,X', 200), ('rng*16:E', 200), ('tm*16:F,F', 10), ('rng:V|C,X', 300), ('rng*4:c,R32,X', 200)]}
 
 FREE_TIMEOUT = 240
 
